@@ -11,3 +11,17 @@ pub fn verif_normalize(code: String, file: &str, _config: &Config) -> Result<Str
         compiler.print(&program, print_args).map(|o| o.code)
     })
 }
+
+pub fn verif_parse_stmts(code: String) -> Vec<Stmt> {
+    let compiler = Compiler::new(Arc::new(swc_common::SourceMap::new(FilePathMapping::empty())));
+    let program_result = try_with_handler(compiler.cm.clone(), default_handler_opts(), |handler| {
+        let source_file = compiler
+            .cm
+            .new_source_file(Arc::new(FileName::Real(PathBuf::from("inline.js".to_string()))), code);
+        parse_js(&source_file, handler, &compiler)
+    });
+    if let Ok(Program::Script(script)) = program_result {
+        return script.body;
+    }
+    Vec::new()
+}
